@@ -105,6 +105,17 @@ func (b *codecBodyRecv) parse(body []byte) string {
 	return "ok"
 }
 
+// parseVer feeds a body under another header version than the receiver's own context (history only)
+func (b *codecBodyRecv) parseVer(v consts.ProtocolVersionType, body []byte) string {
+	jt := jt808.NewJTMessage()
+	jt.Header.ProtocolVersion = v
+	jt.Body = body
+	if err := b.v.Parse(jt); err != nil {
+		return "err"
+	}
+	return "ok"
+}
+
 func (b *codecBodyRecv) encode() ([]byte, bool) {
 	if e, ok := b.v.(interface{ Encode() []byte }); ok {
 		return e.Encode(), true
